@@ -281,6 +281,22 @@ def check(case):
                 if r != ("ok", b"after"):
                     raise Violation(["refused-item", "later-get"], "after a set_many in which %r refused one item, get(%r) returned %r; %s" % (owner(bad), k, r, desc))
                 expect_only_at(k, "get after a refused item")
+        # second epilogue - a server answers a multi-key read with an item nobody asked it for (a proxy out of step): whatever
+        # the multi-key read makes of that, it does not report items for keys the caller did not ask for, nor - for a key that
+        # lives elsewhere - something else than the single-key read of that key gives
+        if len(names) >= 2 and not case.get("subclass"):
+            ask = [k for k in keys[:6] if not isinstance(k, tuple)]
+            if ask:
+                for i_, s in enumerate(env.servers):
+                    s.dialect = {"unasked"} if i_ == 0 else set()
+                for opn in ("get_many", "gets_many"):
+                    r = env.call(getattr(hc, opn), list(ask))
+                    if r[0] == "ok":
+                        extra = [k for k in r[1] if k not in ask]
+                        if extra:
+                            raise Violation(["unasked-item", opn], "%s(%r) with %r adding an item nobody asked for returned keys %r; %s" % (opn, ask, names[0], extra, desc))
+                for s in env.servers:
+                    s.dialect = set()
         for s in env.servers:
             if s.errors:
                 raise Violation(["server-parse-errors"], "server logged %r; %s" % (s.errors[:2], desc))
